@@ -85,13 +85,23 @@ func (g *FnGen) selectImpl(s *State, x *ssa.Select) {
 			if sg.Case < 0 || sg.Case >= n {
 				panic(genErr("%s: select %d has %d cases", sg.Where, sg.Select, n))
 			}
+			env := g.newEnv(s, g.entry)
+			for _, li := range g.enclosingLoops() {
+				if env.loop == nil || len(li.blocks) < len(env.loop.blocks) {
+					env.loop = li
+				}
+			}
+			if rv, ok := recvVal[sg.Case]; ok {
+				env.vars["recv"] = TVal{term: rv, ty: Ty{sort: g.c.reg.sortOf(recvTyp[sg.Case]), gt: recvTyp[sg.Case]}}
+			}
+			if sg.Ghost == "" {
+				g.assume(s, implies(eq(idx, intLit(int64(sg.Case))), env.eval(sg.E).term))
+				g.c.assumptionsUsed["assumed about the environment ("+shortKey(g.c.fnKey(g.fn))+"): select "+sg.Src] = true
+				continue
+			}
 			gd, ok := g.c.ghosts[sg.Ghost]
 			if !ok {
 				panic(genErr("%s: unknown ghost %s", sg.Where, sg.Ghost))
-			}
-			env := g.newEnv(s, g.entry)
-			if rv, ok := recvVal[sg.Case]; ok {
-				env.vars["recv"] = TVal{term: rv, ty: Ty{sort: g.c.reg.sortOf(recvTyp[sg.Case]), gt: recvTyp[sg.Case]}}
 			}
 			v := env.eval(sg.E)
 			ng := g.fresh("G_"+sg.Ghost, g.ghostSort(gd))
@@ -119,9 +129,16 @@ func (g *FnGen) recvImpl(s *State, x *ssa.UnOp) {
 
 func (g *FnGen) sendImpl(s *State, x *ssa.Send) {
 	ch := g.term(s, x.Chan)
-	g.term(s, x.X)
+	v := g.term(s, x.X)
 	g.assume(s, not(eq(ch, nilRef)))
-	g.usedDropped["channel send (no effect on modelled state)"] = true
+	g.usedDropped["channel send (no effect on modelled state other than onsend ghost updates)"] = true
+	et := x.Chan.Type().Underlying().(*types.Chan).Elem()
+	g.hookExtra = map[string]TVal{
+		"sendch":  {term: ch, ty: Ty{sort: "Ref", gt: x.Chan.Type()}},
+		"sendval": {term: v, ty: Ty{sort: g.c.reg.sortOf(et), gt: et}},
+	}
+	g.runHooks(s, x, "", nil)
+	g.hookExtra = nil
 }
 
 func (g *FnGen) makeChanImpl(s *State, x *ssa.MakeChan) {
